@@ -22,7 +22,10 @@ class Env(object):
         self.hashseed = os.environ.get('PYTHONHASHSEED')
         self.cache = {}          # module-owned, lives for the worker's lifetime
 
+    wall = core.CHILD_WALL_GUARD_S
+
     def pristine(self, fn, *args, **kwargs):
+        kwargs.setdefault('wall', self.wall)
         status, val = core.fork_call(fn, *args, **kwargs)
         if status != 'ok':
             raise core.HarnessError("%s in pristine child: %s" % (status, val))
@@ -30,6 +33,7 @@ class Env(object):
 
 
 def run_one(mod, env, program):
+    env.wall = getattr(mod, 'CHILD_WALL_S', core.CHILD_WALL_GUARD_S)
     res = mod.run_program(program, env)
     res['digest'] = core.digest({'program': program, 'trace': res.get('trace')})
     return res
@@ -41,14 +45,28 @@ def handle_chunk(msg, env):
     stats = core.Counters()
     sets = {}
     samples, violations, herrs, digests = [], [], [], []
+    timeouts = []
     completed = 0
+    stuck = 0
     for r in msg['runs']:
+        program = None
+        if stuck >= 2:
+            # the code under test does not come back (each attempt costs a full wall guard):
+            # give the rest of the chunk up instead of waiting hours
+            herrs.append("run %d: not executed, earlier runs of this chunk timed out" % r)
+            continue
         try:
             rng = core.run_rng(prop, seed, r)
             program = mod.generate(rng, tier, r)
             res = run_one(mod, env, program)
         except core.HarnessError as e:
             herrs.append("run %d: %s" % (r, e))
+            if 'timeout' in str(e):
+                stuck += 1
+                if program is not None and len(timeouts) < 2:
+                    # the parent will re-execute it in fresh workers: a program that never
+                    # comes back, every time, is a violation, not a harness problem
+                    timeouts.append({'run': r, 'hashclass': r % core.HASH_CLASSES, 'program': program})
             continue
         except Exception:
             herrs.append("run %d: %s" % (r, traceback.format_exc()))
@@ -70,7 +88,7 @@ def handle_chunk(msg, env):
             violations.append(v)
     return {'stats': stats, 'sets': {k: sorted(v) for k, v in sets.items()},
             'samples': samples, 'violations': violations, 'harness_errors': herrs,
-            'digests': digests, 'completed': completed}
+            'digests': digests, 'completed': completed, 'timeouts': timeouts}
 
 
 def handle_program(msg, env):
